@@ -45,8 +45,10 @@ func fnv32a(b []byte) uint32 {
 
 func genN(r *hx.Rng) int64 {
 	switch k := r.Intn(100); {
+	case k < 3:
+		return 1
 	case k < 35:
-		return r.Range(1, 16)
+		return r.Range(2, 16)
 	case k < 55:
 		n := int64(1)<<uint(r.Intn(31)) + r.Range(-1, 1)
 		if n < 1 {
@@ -205,7 +207,7 @@ func gen(a hx.Args) {
 		}
 		steps := 8 + r.Intn(30)
 		for i := 0; i < steps; i++ {
-			if r.Chance(15) {
+			if r.Chance(10) {
 				hx.Emit("nb")
 				continue
 			}
